@@ -1,4 +1,4 @@
 From Coq Require Import Extraction ExtrOcamlBasic.
-From Texel Require Import Workers.Workers Workers.Checker.
+From Texel Require Import Workers.Workers Workers.Checker Workers.WorkersMeasure.
 Extraction Language OCaml.
-Extraction "workers_model.ml" lstep init check_ev quiescentb reconf cinit cmd_type cmd_job.
+Extraction "workers_model.ml" lstep init check_ev quiescentb reconf cinit cmd_type cmd_job mu.
